@@ -65,7 +65,7 @@ def _kwargs(spec):
     return {}
 
 
-def _import_worker(idx, inp, out, tmpdir, start_barrier, tf_barrier, offset, queue, kwargs=None):
+def _import_worker(idx, inp, out, tmpdir, start_barrier, tf_barrier, offset, queue, kwargs=None, expect_fail=False):
     try:
         os.environ["TMPDIR"] = tmpdir
         tempfile.tempdir = tmpdir
@@ -80,6 +80,19 @@ def _import_worker(idx, inp, out, tmpdir, start_barrier, tf_barrier, offset, que
             pass
         time.sleep(offset / 1000.0)
         t0 = time.monotonic()
+        if expect_fail:
+            # an import that fails (duplicate ID): the others are held inside their temp-file window until it has failed
+            try:
+                gffutils.create_db(inp, out, **(kwargs or {}))
+                failed = None
+            except Exception as e:  # noqa
+                failed = e
+            try:
+                tf_barrier.wait(timeout=3.0)
+            except threading.BrokenBarrierError:
+                pass
+            queue.put((idx, "ok" if failed is None else "error", "expected failure: %r" % (failed,), t0, time.monotonic(), log))
+            return
         db = gffutils.create_db(inp, out, **(kwargs or {}))
         t1 = time.monotonic()
         snap = dbsnap.snapshot(db)
@@ -232,8 +245,7 @@ class ConfigLeg(object):
         mp = multiprocessing.get_context("fork")
         start_barrier = mp.Barrier(n)
         # only imports that create an intermediate file meet at the temp-file barrier
-        n_tf = sum(1 for k in range(n) if case["inputs"][case["assign"][k]].get("options") != "no-inference"
-                   and not case["inputs"][case["assign"][k]].get("duplicate_id"))
+        n_tf = sum(1 for k in range(n) if case["inputs"][case["assign"][k]].get("options") != "no-inference")
         tf_barrier = mp.Barrier(max(1, n_tf))
         queue = mp.Queue()
         procs = []
@@ -247,7 +259,8 @@ class ConfigLeg(object):
         for k in range(n):
             out = outs[k]
             p = mp.Process(target=_import_worker, args=(k, paths[case["assign"][k]], out, shared_tmp, start_barrier, tf_barrier,
-                                                        case["offsets_ms"][k], queue, _kwargs(case["inputs"][case["assign"][k]])))
+                                                        case["offsets_ms"][k], queue, _kwargs(case["inputs"][case["assign"][k]]),
+                                                        bool(case["inputs"][case["assign"][k]].get("duplicate_id"))))
             p.daemon = False
             procs.append(p)
         for p in procs:
